@@ -48,6 +48,10 @@ pub enum Op {
         to: Option<u8>,
     },
     Collect { caller: u8 },
+    /// directed shape: a swap sized (by bisection over the pool's own Simulation query) so that the
+    /// pending protocol fee of the ask asset lands exactly on `target` (the collection threshold
+    /// and its neighbours); with `then_collect` a separate, separately judged Collect step follows
+    SwapToPending { user: u8, dir: bool, target: u16, then_collect: bool },
     SetFees { fees: [Uint128; 3] },
     Donate { user: u8, which: bool, amt: Amt },
     /// deposit then immediately withdraw the minted shares
@@ -107,6 +111,8 @@ pub fn op() -> BoxedStrategy<Op> {
         8 => (0u8..4, any::<bool>(), small_amt(), spread(), proptest::option::weighted(0.2, 0u8..4))
             .prop_map(|(user, dir, amt, spread, to)| Op::Swap { user, dir, amt, spread, to }),
         2 => (0u8..5).prop_map(|caller| Op::Collect { caller }),
+        1 => (0u8..4, any::<bool>(), prop_oneof![Just(999u16), Just(1000), Just(1001), 1u16..3000], proptest::bool::weighted(0.8))
+            .prop_map(|(user, dir, target, then_collect)| Op::SwapToPending { user, dir, target, then_collect }),
         1 => fee_arr().prop_map(|fees| Op::SetFees { fees }),
         1 => (0u8..4, any::<bool>(), small_amt()).prop_map(|(user, which, amt)| Op::Donate { user, which, amt }),
         2 => (0u8..4, amt(), amt()).prop_map(|(user, a0, a1)| Op::ProvideThenWithdraw { user, a0, a1 }),
@@ -166,7 +172,7 @@ impl Check for CpPoolHistory {
         "cp_pool_history"
     }
     fn rule(&self) -> &'static str {
-        "configuration (native/cw20 kinds, decimals, fee triple) + history of up to 40 (quick) / 120 (thorough) operations by 4 users {provide, balanced provide, withdraw, native/cw20 swap with spread settings and receivers, fee collection by anyone, fee change through the factory, donation, provide-then-withdraw, block advance}, amounts absolute (log-uniform up to 2^120 + boundaries) or relative to reserves/balances; the real pair created through the real factory. After every step: Pool query succeeds, balance >= reserve + pending fee, geometric mean per LP not lower (exact U1024), withdrawals <= pro-rata, deposit-then-withdraw <= deposited, minimum-liquidity stake locked, rejected step leaves the world snapshot unchanged. Non-trivial: >= 1 successful swap and >= 1 successful withdrawal after a second depositor joined; distinct by case hash."
+        "configuration (native/cw20 kinds, decimals, fee triple) + history of up to 40 (quick) / 120 (thorough) operations by 4 users {provide, balanced provide, withdraw, native/cw20 swap with spread settings and receivers, fee collection by anyone, swap sized by bisection over the Simulation query so that the pending protocol fee lands exactly on 999 / 1000 / 1001 (the collection threshold) or a random target, followed by a separately judged collection, fee change through the factory, donation, provide-then-withdraw, block advance}, amounts absolute (log-uniform up to 2^120 + boundaries) or relative to reserves/balances; the real pair created through the real factory. After every step: Pool query succeeds, balance >= reserve + pending fee, geometric mean per LP not lower (exact U1024), withdrawals <= pro-rata, deposit-then-withdraw <= deposited, minimum-liquidity stake locked, rejected step leaves the world snapshot unchanged. Non-trivial: >= 1 successful swap and >= 1 successful withdrawal after a second depositor joined; distinct by case hash."
     }
     fn strategy(&self, tier: Tier) -> BoxedStrategy<Case> {
         let max_ops = tier.pick(40usize, 120usize);
@@ -205,7 +211,14 @@ impl Check for CpPoolHistory {
         let mut swaps_ok = 0u32;
         let mut withdraw_after_second = 0u32;
         let mut before = pw.view().map_err(|e| Fail::new(format!("Pool query failed: {e}")))?;
-        for (step, op) in c.ops.iter().enumerate() {
+        let mut ops: Vec<Op> = Vec::with_capacity(c.ops.len() + 4);
+        for op in &c.ops {
+            ops.push(op.clone());
+            if let Op::SwapToPending { user, then_collect: true, .. } = op {
+                ops.push(Op::Collect { caller: *user });
+            }
+        }
+        for (step, op) in ops.iter().enumerate() {
             let mut snap = pw.w.snapshot();
             let mut skip_value_check = false;
             let res: Result<(), String> = match op {
@@ -297,6 +310,41 @@ impl Check for CpPoolHistory {
                     if r.is_ok() {
                         swaps_ok += 1;
                         rec.class(if c.cfg.cw20[oi] { "swap_cw20_ok" } else { "swap_native_ok" });
+                    }
+                    r.map(|_| ())
+                }
+                Op::SwapToPending { user, dir, target, .. } => {
+                    let usr = pw.user(*user);
+                    let oi = if *dir { 1 } else { 0 };
+                    let ai = 1 - oi;
+                    let target = *target as u128;
+                    if before.pending[ai] >= target || before.reserves[oi] == 0 {
+                        continue;
+                    }
+                    let need = target - before.pending[ai];
+                    let fee_of = |pw: &PairWorld, x: u128| pw.simulate(oi, x).ok().map(|s| s.protocol_fee_amount.u128());
+                    let cap = before.reserves[oi].saturating_mul(4).min(pw.w.bal(&pw.infos[oi], &usr));
+                    let (mut lo, mut hi) = (1u128, cap);
+                    if hi < 1 || fee_of(&pw, hi).map(|f| f < need).unwrap_or(true) {
+                        continue;
+                    }
+                    while lo < hi {
+                        let mid = lo + (hi - lo) / 2;
+                        match fee_of(&pw, mid) {
+                            Some(f) if f >= need => hi = mid,
+                            _ => lo = mid + 1,
+                        }
+                    }
+                    if fee_of(&pw, lo) != Some(need) {
+                        continue;
+                    }
+                    let r = pw.swap(&usr, oi, lo, None, Some(dec(500_000_000_000_000_000)), None);
+                    if r.is_ok() {
+                        swaps_ok += 1;
+                        rec.class("swap_to_pending_fee_target_ok");
+                        if target == 1000 {
+                            rec.class("pending_fee_exactly_at_collection_threshold");
+                        }
                     }
                     r.map(|_| ())
                 }
